@@ -18,6 +18,21 @@ PLACERS = ["sequential", "hilbert", "rcm", "breadth_first", "rand", "sa_c", "sa_
 
 def gen_call(rng):
     k = rng.random()
+    if k < 0.12:
+        # object reuse: one set of rig objects, a first mapping, the machine edited in place (enough dead links to
+        # flip the wrap-around verdict now and then), then a second mapping on the same objects
+        p = pnr_gen.gen_problem(rng, max_w=rng.choice([3, 4, 5]), max_h=rng.choice([3, 4, 5]), max_vertices=8)
+        m = p["machine"]
+        w, h = m["w"], m["h"]
+        VEC = [(1, 0), (1, 1), (0, 1), (-1, 0), (-1, -1), (0, -1)]
+        if rng.random() < 0.5:          # kill every wrap-around link: torus -> mesh
+            edit = [[x, y, l] for x in range(w) for y in range(h) for l, (dx, dy) in enumerate(VEC)
+                    if not (0 <= x + dx < w and 0 <= y + dy < h)]
+        else:
+            edit = [[rng.randrange(w), rng.randrange(h), rng.randrange(6)] for _ in range(rng.randint(1, 3))]
+        spec = lambda: dict(placer=rng.choice(PLACERS), seed=rng.randint(0, 10 ** 6), target=rng.choice([None, 3]),
+                            radius=rng.choice([0, 20]))
+        return dict(kind="reuse", problem=p, first=spec(), edit_dead_links=edit, second=spec())
     if k < 0.6:
         return dict(kind="chain", problem=pnr_gen.gen_problem(rng), placer=rng.choice(PLACERS),
                     seed=rng.randint(0, 10 ** 6), target=rng.choice([None, None, 0, 2, 1024]),
@@ -32,9 +47,15 @@ def gen_call(rng):
         return dict(kind="covering", table=table, target=rng.choice([None, 0, 3]))
     if k < 0.78:
         nf = rng.randint(1, 4)
-        fields = [["f%d" % i, rng.choice([None, 1, 2, 4]), None, rng.choice([None, "t", "u v"])] for i in range(nf)]
+        tagset = lambda: rng.choice([None, "t", "u v", ["set", "S", ["t"]], ["set", "S", ["t"]], ["set", "T", ["w", "t"]]])
+        fields = [["f%d" % i, rng.choice([None, 1, 2, 4]), None, tagset()] for i in range(nf)]
         values = [[f[0], rng.randint(0, (1 << (f[1] or 3)) - 1)] for f in fields]
-        return dict(kind="bitfield", length=rng.choice([8, 16, 32]), fields=fields, values=values)
+        call = dict(kind="bitfield", length=rng.choice([8, 16, 32]), fields=fields, values=values)
+        if rng.random() < 0.6:        # a second bit field given the same caller-owned tag sets; a child with a new tag
+            call["second"] = [["g%d" % i, rng.choice([1, 2]), None, tagset()] for i in range(rng.randint(1, 3))]
+            f0 = fields[0]
+            call["children"] = [[f0[0], values[0][1], "child", 1, rng.choice(["z", ["set", "Z", ["z"]]])]]
+        return call
     if k < 0.86:
         return dict(kind="controller", updates=[{"x": rng.randint(0, 7)}, {"app_id": rng.randint(1, 255)}][:rng.randint(0, 2)],
                     x=rng.randint(0, 7), y=rng.randint(0, 7), p=rng.randint(1, 17), **{"raise": rng.random() < 0.5},
@@ -68,7 +89,15 @@ def run(chk, args):
         hists = json.load(open(corpus)) + hists
     # run A: whole history in one interpreter; run B: every call of the history alone in a fresh interpreter
     outA = [o for part in chk.impl_parallel("impl_c17.py", [[h] for h in hists], timeout=1800) for o in part]
-    singles = [[c] for h in hists for c in h]
+    def fresh_counterpart(c):
+        if c["kind"] != "reuse":
+            return c
+        p = json.loads(json.dumps(c["problem"]))
+        for e in c["edit_dead_links"]:
+            if e not in p["machine"]["dead_links"]:
+                p["machine"]["dead_links"].append(e)
+        return dict(kind="reuse", problem=p, first=None, edit_dead_links=[], second=c["second"])
+    singles = [[fresh_counterpart(c)] for h in hists for c in h]
     groups = [singles[i:i + 1] for i in range(len(singles))]
     outB = [o[0] for part in chk.impl_parallel("impl_c17.py", groups, timeout=1800) for o in part]
     k = 0
@@ -80,7 +109,8 @@ def run(chk, args):
         for i, (call, ra) in enumerate(zip(h, a)):
             rb = outB[k]
             k += 1
-            chk.count("kind:" + call["kind"] + (":" + call["placer"] if "placer" in call else ""))
+            chk.count("kind:" + call["kind"] + (":" + call["placer"] if "placer" in call else "")
+                      + (":" + call["second"]["placer"] if call["kind"] == "reuse" else ""))
             nontriv = i > 0 and not (isinstance(ra["result"], list) and ra["result"][:1] == ["raised"])
             chk.note_case([h[:i + 1]], nontriv)
             if ra["mutated"]:
